@@ -96,7 +96,7 @@ func registeredTypes() map[string]bool {
 }
 
 func treeCase(c *Ctx, which string, bs []byte) {
-	if len(bs) < 8 || len(bs) > 16384 || !isPlainContainer(string(bs[4:8])) || !allModelled(bs, 0) {
+	if len(bs) < 8 || len(bs) > 16384 || !isPlainContainer(string(bs[4:8])) || !allModelled(bs, 0) || !exactBox(bs) {
 		return
 	}
 	c.Case("tree.rt "+hx(bs), boxRT(bs))
